@@ -27,9 +27,19 @@ func TestDebug(t *testing.T) {
 			}
 		}
 	}
+	if from := os.Getenv("DBG_FROM"); from != "" {
+		// earlier runs of the same process first (state carried between runs shows here)
+		f, _ := strconv.ParseUint(from, 10, 64)
+		for i := f; i < run; i++ {
+			Run(sim.NewTape(seed, i), os.Getenv("DBG_PROFILE"), "quick")
+		}
+	}
 	debugKeep = 100000
 	r := Run(sim.NewTape(seed, run), os.Getenv("DBG_PROFILE"), "quick")
 	fmt.Println(r.HarnessErr, r.Violations)
+	if f := os.Getenv("DBG_DUMP"); f != "" {
+		os.WriteFile(f, []byte(strings.Join(debugLines, "\n")), 0o644)
+	}
 	if f := os.Getenv("DBG_GREP"); f != "" {
 		n := 0
 		for _, l := range debugLines {
